@@ -378,7 +378,59 @@ def k_pdu_stream(ctx, seed):
                   observed=repr(now)[:300], expected=repr(seen)[:300])
 
 
-KINDS = {"unit": k_unit, "back_to_back": k_back_to_back, "pdu": k_pdu, "pdu_stream": k_pdu_stream}
+def k_refused_unit(ctx, what, seed):
+    """Units that declare less than their reader needs (self-consistent, valid CRC, but too short for the timestamp / step id /
+    directive fields the reader was told to expect): whether such a unit is refused must not depend on what follows it in the
+    buffer - octets behind the declared end are not there to be borrowed."""
+    import random
+    from spacepackets.ecss.tm import PusTm
+    from spacepackets.ecss.tc import PusTc
+    from spacepackets.ecss.pus_17_test import Service17Tm
+    from spacepackets.ecss.pus_1_verification import Service1Tm, UnpackParams
+    X = C.lib()
+    r = random.Random(f"refused/{what}/{seed}")
+    case = {"k": "refused_unit", "what": what, "seed": seed}
+    ctx.case(f"refused_unit/{what}", seed, sample=case)
+    if what in ("tm_short_for_timestamp", "srv17_short_for_timestamp"):
+        tsl = r.choice((7, 12, 16))
+        have = r.randrange(0, tsl)                               # timestamp + source data octets really present: fewer than the reader's timestamp
+        u = P.tm(r.getrandbits(11), r.getrandbits(14), 17, 2, 0, 0, 0, b"", rand_bytes(r, have))
+        dec = (lambda b: PusTm.unpack(b, tsl)) if what.startswith("tm") else (lambda b: Service17Tm.unpack(b, tsl))
+    elif what == "srv1_short_for_fields":
+        sw, cw = r.choice((1, 2, 4)), r.choice((1, 2, 4))
+        sub = r.choice((2, 4, 5, 6, 8))
+        need = 4 + (sw if sub in (5, 6) else 0) + (cw if sub % 2 == 0 else 0)
+        u = P.tm(r.getrandbits(11), r.getrandbits(14), 1, sub, 0, 0, 0, b"", rand_bytes(r, r.randrange(0, need)))
+        dec = lambda b: Service1Tm.unpack(b, UnpackParams(0, sw, cw))  # noqa: E731
+    elif what == "tc_short_length_field":
+        full = P.tc(r.getrandbits(11), r.getrandbits(14), 17, 1, 0, 0xF, b"")
+        n = r.randrange(0, 6)                                    # declared data length too small for secondary header + CRC
+        u = full[:4] + n.to_bytes(2, "big") + full[6:7 + n]
+        dec = PusTc.unpack
+    else:                                                        # directive PDUs whose data field is shorter than the directive's fixed fields
+        kind = r.choice(("eof", "finished", "ack", "metadata", "nak", "prompt", "keep_alive"))
+        cfg = C.rand_cfg(r, crc=0)
+        minimal = {"eof": 10, "finished": 2, "ack": 3, "metadata": 8, "nak": 9, "prompt": 2, "keep_alive": 5}[kind] + (4 if cfg["large"] and kind in ("eof", "metadata", "keep_alive") else 0) + (8 if cfg["large"] and kind == "nak" else 0)
+        body = bytes([C.DIRECTIVE_CODE[kind]]) + rand_bytes(r, r.randrange(0, minimal - 1))
+        u = R.assemble(cfg, 0, 0, body)
+        dec = X.CLS[kind].unpack if r.random() < 0.5 else X.PduFactory.from_raw
+        what = f"pdu_short_for_directive/{kind}"
+    ok, base = attempt(dec, u)
+    ctx.table("refused_unit_alone", f"{what.split('/')[0]}:{'accepted' if ok else type(base).__name__}")
+    if ok:
+        return                                                   # accepted on its own: nothing to compare (the other monitors cover accepted units)
+    if not isinstance(base, documented_errors()):
+        return
+    other = reg()[r.choice(list(reg()))](r)[0]
+    for cls in r.sample(SUFFIX_CLASSES, 6):
+        sfx = make_suffix(r, cls, u, other)
+        ok2, got = attempt(dec, u + sfx)
+        ctx.ev("refusal_independent_of_what_follows")
+        if ok2:
+            return ctx.fail("refusal_independent_of_what_follows", "unit_refused_alone_is_accepted_with_octets_behind_it", what, case, unit=u, suffix=sfx, observed=repr(got)[:200])
+
+
+KINDS = {"refused_unit": k_refused_unit, "unit": k_unit, "back_to_back": k_back_to_back, "pdu": k_pdu, "pdu_stream": k_pdu_stream}
 
 
 def run(ctx):
@@ -399,6 +451,9 @@ def run(ctx):
         k = r.randrange(2, 6)
         ns = [r.choice(names)] * k if r.random() < 0.4 else [r.choice(names) for _ in range(k)]
         k_back_to_back(ctx, ns, ctx.seed * 1_000_003 + ctx.shard[0] * 50_021 + j)
+    for j in range(ctx.n(300, 20_000)):
+        for what in ("tm_short_for_timestamp", "srv17_short_for_timestamp", "srv1_short_for_fields", "tc_short_length_field", "pdu_short_for_directive"):
+            k_refused_unit(ctx, what, ctx.seed * 1_000_003 + ctx.shard[0] * 50_021 + j)
     preps = 8 if ctx.quick else 300
     for kind in C.KINDS8:
         for crc in (0, 1):
